@@ -118,11 +118,13 @@ class Rule:
                         if isinstance(datum, k):
                             try:
                                 datum = v(datum)
-                                break
                             except (TypeError, ValueError):
-                                pass
-                    if datum_path:
-                        set_datum(data_copy, datum_path, datum)
+                                continue
+                            # only a successful cast is written to the copy; a node that
+                            # cannot be cast is left as it is (it may already hold the
+                            # cast value of an earlier rule):
+                            set_datum(data_copy, datum_path, datum)
+                            break
 
         return RuleTest(self, data_copy)
 
